@@ -351,6 +351,16 @@ where
     }
 
     async fn on_incoming_detach(&mut self, detach: Detach) -> Result<(), Self::Error> {
+        // The posts buffered for this attachment end with it. They are replayed by handle
+        // number at commit, so they must not find the link that takes over the number: that
+        // would hand them to an application they were never sent to. Their own link is gone,
+        // there is nobody left to deliver them to.
+        for txn in self.txn_manager.txns.values_mut() {
+            txn.frames.retain(|frame| match frame {
+                TxnWorkFrame::Post { transfer, .. } => transfer.handle != detach.handle,
+                TxnWorkFrame::Retire(_) => true,
+            });
+        }
         self.session.on_incoming_detach(detach).await
     }
 
